@@ -160,16 +160,19 @@ structure CmpImpl where
   body : CmpBody
 deriving Inhabited
 
-/-- the per-field loop of `build_*_body::build_from_fields`, decisions only -/
+/-- one iteration of the per-field loop of `build_*_body::build_from_fields`,
+decisions only: `none` = the field is skipped -/
+def cmpField1 (op : CmpOp) (f : FieldE) : R (Option CmpField) := do
+  if ← f.h.cmp.isIgnore op then pure none
+  else
+    let s ← f.h.cmp.sel op
+    let r ← (match op with
+      | .ord | .partialOrd => f.h.cmp.isReverse op
+      | _ => pure false)
+    pure (some { f, sel := s, rev := r : CmpField })
+
 def cmpFields (op : CmpOp) (fields : List FieldE) : R (List CmpField) := do
-  let xs ← fields.mapM fun f => do
-    if ← f.h.cmp.isIgnore op then pure none
-    else
-      let s ← f.h.cmp.sel op
-      let r ← (match op with
-        | .ord | .partialOrd => f.h.cmp.isReverse op
-        | _ => pure false)
-      pure (some { f, sel := s, rev := r : CmpField })
+  let xs ← fields.mapM (cmpField1 op)
   pure (xs.filterMap id)
 
 /-- the per-field loop, where-clause side -/
@@ -192,6 +195,10 @@ def Source.generics : Source → Generics
   | .struct_ _ g _ => g
   | .enum_ _ g _ => g
 
+def cmpVariant (op : CmpOp) (v : VariantE) : R (VariantE × List CmpField) := do
+  let fs ← cmpFields op v.fields
+  pure (v, fs)
+
 /-- `build_compare_op`, decisions and where-clause -/
 def buildCmp (op : CmpOp) (src : Source) (e : Entry) (h : HAttrs) : R CmpImpl := do
   let kind := Kind.cmp op
@@ -203,9 +210,7 @@ def buildCmp (op : CmpOp) (src : Source) (e : Entry) (h : HAttrs) : R CmpImpl :=
     let w := cmpFieldsBounds op fs use w
     pure { op, name, generics := g, wc := w, body := .struct_ fs }
   | .enum_ name g variants =>
-    let vs ← variants.mapM fun v => do
-      let fs ← cmpFields op v.fields
-      pure (v, fs)
+    let vs ← variants.mapM (cmpVariant op)
     let w := vs.foldl (init := w) fun w (v, fs) =>
       let (w, u) := v.h.pushBoundsTo use kind w
       cmpFieldsBounds op fs u w
